@@ -15,6 +15,7 @@ CONSTANTS
   BugNilErr = FALSE
   BugTrunc = FALSE
   BugOkOnHubErr = FALSE
+  BugReqAlias = FALSE
   BugNegOk = FALSE
   KeyOT = TRUE
   KeyDst = FALSE
